@@ -829,6 +829,7 @@ func c20(p *core.Program, r *core.Report) {
 	}
 	strideRule(p, r, "stride-discipline", []strideTarget{{"xy", "dpWorker", "all"}, {"xy", rdpDistanceName(p), "xy"}, {"xy", "SimplifyFlatCoords", "all"}})
 	pointSegmentFormulaRule(p, r, "point-segment-formula", []pointSegTarget{{"xy", rdpDistanceName(p), 2}}, 1)
+	differencesOfInputsRule(p, r, "distance-from-input-differences", rdpDistanceFn(p))
 	clampedProjectionRule(p, r, "segment-distance-clamped", [][2]string{{"xy", rdpDistanceName(p)}})
 	rdpScanRule(p, r, "candidate-scan-exhaustive")
 	rdpSingleDecisionRule(p, r, "single-decision-point")
